@@ -73,6 +73,26 @@ def quiet():
     return contextlib.redirect_stdout(QUIET)
 
 
+class WasmTimeout(Exception):
+    pass
+
+
+@contextlib.contextmanager
+def time_limit(seconds):
+    """miscompiled control flow may never terminate: bound every call into generated code"""
+    import signal
+
+    def handler(signum, frame):
+        raise WasmTimeout()
+    old = signal.signal(signal.SIGALRM, handler)
+    signal.alarm(seconds)
+    try:
+        yield
+    finally:
+        signal.alarm(0)
+        signal.signal(signal.SIGALRM, old)
+
+
 def _ppci():
     from vlib import ensure_repo_on_path
     ensure_repo_on_path()
@@ -510,7 +530,7 @@ def shape_domain(ctx):
         else:
             rnd.append(random_terms(ctx.rng, ctx.rng.randrange(4, 8)))
     if not ctx.quick():
-        for t in itertools.islice(all_terms(5), 0, None, 997):
+        for t in itertools.islice(all_terms(5), 0, None, 9973):
             rnd.append(t)
     return det, rnd
 
@@ -674,7 +694,8 @@ def stage_ops(ctx, rows, crows):
                         return v - (1 << w) if v >> (w - 1) else v
                     try:
                         with quiet():
-                            got = inst.exports.f(sgn(a, wbits), sgn(b, wbits))
+                            with time_limit(5):
+                                got = inst.exports.f(sgn(a, wbits), sgn(b, wbits))
                     except Exception as ex:
                         got = 'trap %s' % type(ex).__name__
                     n += 1
@@ -809,10 +830,22 @@ def stage_e2e(ctx, relooper_known):
             try:
                 with quiet():
                     w = compile_module(m)
-                    inst = instantiate(w, {}, target='python')
             except Exception as ex:
                 key = type(ex).__name__
                 stats['rejected'][key] = stats['rejected'].get(key, 0) + 1
+                continue
+            try:
+                with quiet():
+                    inst = instantiate(w, {}, target='python')
+            except Exception as ex:
+                # ir_to_wasm accepted the module but the result cannot be instantiated (invalid labels, types...)
+                stats['instantiate_failed'] = stats.get('instantiate_failed', 0) + 1
+                from ppci.irutils import print_module
+                buf = io.StringIO()
+                print_module(m, file=buf)
+                ctx.violation({'fn': 'ir_to_wasm.e2e', 'key': 'e2e-invalid-module', 'error': repr(ex)[:300],
+                               'module': buf.getvalue(), 'what': 'ir_to_wasm output cannot be instantiated',
+                               'how_to_replay': 'read_module(text); instantiate(ir_to_wasm(m), {}, target="python")'})
                 continue
             stats['compiled'] += 1
             for f in m.functions:
@@ -832,7 +865,8 @@ def stage_e2e(ctx, relooper_known):
                                 w_ = 64 if p_.ty.name in ('u32', 'i64', 'u64') else 32
                                 v_ &= (1 << w_) - 1
                                 wargs.append(v_ - (1 << w_) if v_ >> (w_ - 1) else v_)
-                            got = getattr(inst.exports, f.name)(*wargs)
+                            with time_limit(5):
+                                got = getattr(inst.exports, f.name)(*wargs)
                     except Exception as ex:
                         got = 'trap %s' % type(ex).__name__
                     stats['compared'] += 1
